@@ -463,7 +463,7 @@ pub fn replay(run: &Run, case: &J) {
 
 /// C14, wall-clock clause ("given at least a fifth of a second on its clock, a search returns its move before that
 /// clock would have run out"), on the optimised binary. This part is a MEASUREMENT, not an enumeration: real time
-/// cannot be enumerated. To stay silent on a loaded machine a scenario counts as violated only if the BEST of five
+/// cannot be enumerated. To stay silent on a loaded machine a scenario counts as violated only if the BEST of eight
 /// attempts (fresh process each) oversteps the clock, and only if a calibration run shows that the sandbox can time
 /// a 100 ms search to within 60 ms at all; otherwise the family is reported as not completed.
 pub fn c14_wallclock(run: &Run) -> (u64, u64) {
@@ -529,7 +529,7 @@ pub fn c14_wallclock(run: &Run) -> (u64, u64) {
     for (prelude, go, clock_ms) in &scenarios {
         let mut best = Duration::from_secs(99);
         let mut errs = vec![];
-        for _ in 0..5 {
+        for _ in 0..8 {
             n += 1;
             match attempt(prelude, go) {
                 Ok(d) => {
@@ -544,12 +544,12 @@ pub fn c14_wallclock(run: &Run) -> (u64, u64) {
         let mut lines = prelude.clone();
         lines.push(go.to_string());
         run.distinct_outcome(format!("{} ms class", best.as_millis() / 25 * 25));
-        if errs.len() == 5 {
+        if errs.len() == 8 {
             run.violation("blackbox-no-bestmove", format!("wallclock|{}", lines.join(" ; ")), case(&lines), format!("optimised build, [{}]: {}", lines.join(" ; "), errs[0]));
         } else if best >= Duration::from_millis(*clock_ms) {
-            run.violation("move-after-the-clock-ran-out", format!("wallclock|{}", lines.join(" ; ")), J::obj(vec![("kind", J::s("wallclock")), ("lines", J::Arr(lines.iter().map(|l| J::s(l.clone())).collect())), ("clock_ms", J::i(*clock_ms))]), format!("optimised build, [{}]: the best of five attempts answered after {best:?} with {clock_ms} ms on the clock (calibration: a 100 ms search is timed as {cal:?})", lines.join(" ; ")));
+            run.violation("move-after-the-clock-ran-out", format!("wallclock|{}", lines.join(" ; ")), J::obj(vec![("kind", J::s("wallclock")), ("lines", J::Arr(lines.iter().map(|l| J::s(l.clone())).collect())), ("clock_ms", J::i(*clock_ms))]), format!("optimised build, [{}]: the best of eight attempts answered after {best:?} with {clock_ms} ms on the clock (calibration: a 100 ms search is timed as {cal:?})", lines.join(" ; ")));
         }
     }
-    run.family("E7-WALL-CLOCK", &format!("measurement (not an enumeration): 6 scenarios on the optimised binary (plain; first search after ucinewgame on a {big} MB table, empty and used; first search after a resize; used large table), clock 200-250 ms, best of five attempts each must answer before the clock runs out"), n, n, true, "labelled measurement; real time cannot be enumerated");
+    run.family("E7-WALL-CLOCK", &format!("measurement (not an enumeration): 6 scenarios on the optimised binary (plain; first search after ucinewgame on a {big} MB table, empty and used; first search after a resize; used large table), clock 200-250 ms, best of up to eight attempts each must answer before the clock runs out"), n, n, true, "labelled measurement; real time cannot be enumerated");
     (n, n)
 }
